@@ -1463,16 +1463,17 @@ fn main() {
     }
     let meta = Meta {
         property: "C11",
-        rule: "stress round = one real TensorStore, 2-8 OS threads x 6-19 operations on 1-4 contended keys of classes plain/emb(384-dim slab vector, other dim, none)/node/table/edge/_cache, non-durable or durable (manual / immediate sync), half of the rounds with seeded jitter at the put_durable/delete_durable hook points; every call recorded at the client boundary (atomic tick before and after); values self-describing (write id in every field and vector element). Oracles: value integrity per read, Wing-Gong linearizability per key (scan decomposed per key), recovered-state (latest checkpoint + log; durable rounds take checkpoints concurrently with the writers) == live state after quiescence. Distinct = hash of the observed call order (thread, op, key by call tick); non-trivial = at least two operations of different threads on one key overlapped in time. parked rounds = the deterministic two-writer schedule at put_durable:after_log; sync rounds = 1-4 durable writes return (manual sync mode), another writer parks at put_durable:after_log, sync() is called: the log file as it is right after sync() returned Ok must recover every earlier write; sequential rounds = single-thread register semantics; fresh rounds = 3-8 threads creating 4-15 (on a store with a small Bloom filter: 40-119) distinct new keys each at the same instant, every key read back at quiescence; one stress round in six (non-durable) uses values with 2500 padding fields so that reads fall between the steps of a put; bigscan rounds = 1-3 writers toggling pairs of keys that lie >1000 keys apart under one prefix of 2200-3600 passive keys (first key put first and deleted last, every call returning before the next starts) against 1-3 scanners of the whole prefix: a scan must never list the second key of a pair without the first, nor miss a passive key; visibility rounds = one writer alternating put (two thirds of the rounds with 2500-field values) / delete on one key of class emb/plain/node/cache, 1-3 observers reading its presence through scan, exists and get in sequence: two consecutive reads of one observer may differ only if a put resp. delete was in progress or started between them (writer calls counted before invocation and after return); engine rounds = the same history check on VectorEngine::{store_embedding,get_embedding,delete_embedding,exists} over one shared store.",
+        rule: "stress round = one real TensorStore, 2-8 OS threads x 6-19 operations on 1-4 contended keys of classes plain/emb(384-dim slab vector, other dim, none)/node/table/edge/_cache, non-durable or durable (manual / immediate sync), half of the rounds with seeded jitter at the put_durable/delete_durable hook points; every call recorded at the client boundary (atomic tick before and after); values self-describing (write id in every field and vector element). Oracles: value integrity per read, Wing-Gong linearizability per key (scan decomposed per key), recovered-state (latest checkpoint + log; durable rounds take checkpoints concurrently with the writers) == live state after quiescence. Distinct = hash of the observed call order (thread, op, key by call tick); non-trivial = at least two operations of different threads on one key overlapped in time. parked rounds = the deterministic two-writer schedule at put_durable:after_log; sync rounds = 1-4 durable writes return (manual sync mode), another writer parks at put_durable:after_log, sync() is called: the log file as it is right after sync() returned Ok must recover every earlier write; walfault rounds = a durable store whose log refuses records (max_size_bytes 300-10300 bytes, auto_rotate off; manual / immediate sync), 1-4 contended keys of the logged classes plain/emb/node/table/edge, half of them with 1-160 padding characters in the name so that record sizes differ; optional prefill (+ checkpoint), then 2-8 threads x 6-17 mixed operations (checkpoints concurrent in half of the phases) while the log fills, filler writes of other keys until one is refused (3 rounds in 4), the same concurrent workload on the full log, then a single-thread probe issuing one delete_durable / put_durable per contended key. Oracles: per-key linearizability of each phase from the register value read at the preceding quiescent point, where every write that returned an error (put or delete) is an OPEN operation that may or may not have taken effect; an acknowledged probe write is visible to the next read; at the quiescent point after each phase and after the probe the files a crash would leave (copy of log + latest checkpoint; finally the files themselves after dropping the store) recover to exactly the state readers see - so a refused write that is in memory but not in the log, or in the log but not in memory, is a violation; non-trivial = at least one write was refused and operations of different threads overlapped on a key; sequential rounds = single-thread register semantics; fresh rounds = 3-8 threads creating 4-15 (on a store with a small Bloom filter: 40-119) distinct new keys each at the same instant, every key read back at quiescence; one stress round in six (non-durable) uses values with 2500 padding fields so that reads fall between the steps of a put; bigscan rounds = 1-3 writers toggling pairs of keys that lie >1000 keys apart under one prefix of 2200-3600 passive keys (first key put first and deleted last, every call returning before the next starts) against 1-3 scanners of the whole prefix: a scan must never list the second key of a pair without the first, nor miss a passive key; visibility rounds = one writer alternating put (two thirds of the rounds with 2500-field values) / delete on one key of class emb/plain/node/cache, 1-3 observers reading its presence through scan, exists and get in sequence: two consecutive reads of one observer may differ only if a put resp. delete was in progress or started between them (writer calls counted before invocation and after return); engine rounds = the same history check on VectorEngine::{store_embedding,get_embedding,delete_embedding,exists} over one shared store.",
         assumptions: vec![
             "the Ok/NotFound result of delete is not judged (Delete is modelled as a blind write); a failed delete records no event".into(),
             "in stress rounds a prefix scan is judged per key (each listed/absent contended key is a read inside the scan's interval); its atomicity across keys is judged in the bigscan rounds, for keys of one class (a prefix spanning several slabs - metadata, entity index, cache ring - is assembled from one atomic listing per slab)".into(),
             "TensorStore::len/ops statistics are never part of an oracle".into(),
+            "walfault rounds: the only log fault injected is the size limit the log reports itself (WalConfig::max_size_bytes with auto_rotate = false); a write that returned an error is not required to be invisible in memory, only log and memory must agree at quiescence; rotation (auto_rotate = true) is C02's subject and not used here".into(),
         ],
         floors: if args.replay.is_some() || part != "all" {
             vec![("evaluations", 5)]
         } else {
-            vec![("events_recorded", 5_000), ("rounds_with_overlapping_ops", 100), ("key_histories_linearizable", 200), ("parked_at_after_log", 5), ("sync_rounds", 10), ("durable_rounds_recovered", 20), ("durable_rounds_with_concurrent_checkpoint", 10), ("sequential_reads_checked", 500), ("engine_key_histories_linearizable", 100), ("fresh_keys_read_back", 2_000), ("fresh_keys_read_back_through_bloom_filter", 5_000), ("bigscan_scans", 2_000), ("visibility_reads", 20_000), ("visibility_presence_changes_seen", 500), ("bigscan_scans_that_saw_a_half_done_pair", 20)]
+            vec![("events_recorded", 5_000), ("rounds_with_overlapping_ops", 100), ("key_histories_linearizable", 200), ("parked_at_after_log", 5), ("sync_rounds", 10), ("durable_rounds_recovered", 20), ("durable_rounds_with_concurrent_checkpoint", 10), ("sequential_reads_checked", 500), ("engine_key_histories_linearizable", 100), ("fresh_keys_read_back", 2_000), ("fresh_keys_read_back_through_bloom_filter", 5_000), ("bigscan_scans", 2_000), ("visibility_reads", 20_000), ("visibility_presence_changes_seen", 500), ("bigscan_scans_that_saw_a_half_done_pair", 20), ("walfault_crash_images_compared", 100), ("walfault_writes_refused", 500), ("walfault_probe_deletes_of_present_key_refused", 20), ("walfault_probe_puts_refused", 20), ("walfault_key_histories_linearizable", 150)]
         },
         exhaustive: false,
     };
